@@ -54,6 +54,47 @@ type Model struct {
 	FlagArg  string            `json:"flagarg,omitempty"`  // value passed as --<pkg>.mode=<value> ("" = not passed)
 	Gated    bool              `json:"gated,omitempty"`    // BUILD files call vf.gate/vf.done so that the harness can impose a package load order
 	Ignore   []string          `json:"ignore,omitempty"`
+	Seq      int               `json:"seq,omitempty"` // counter for names of added sources
+}
+
+// RecordPath returns the path (relative to .dawn/build) of the persisted record of a label.
+func RecordPath(label string) string {
+	kind := "target"
+	rest := label
+	if i := strings.Index(label, "://"); i >= 0 && !strings.HasPrefix(label, "//") {
+		kind, rest = label[:i], label[i+1:]
+	}
+	pkg, name := rest, ""
+	if i := strings.LastIndexByte(rest, ':'); i >= 0 {
+		pkg, name = rest[:i], rest[i+1:]
+	}
+	if name == "" {
+		name = "BUILD.dawn"
+	}
+	return kind + "s/" + url.PathEscape(strings.TrimPrefix(pkg, "//")+"/"+name)
+}
+
+// SourceLabels returns the labels of the source targets of live target id.
+func (m *Model) SourceLabels(id int) []string {
+	t := m.Targets[id]
+	var out []string
+	add := func(rel string) {
+		dir, name := "", rel
+		if i := strings.LastIndexByte(rel, '/'); i >= 0 {
+			dir, name = rel[:i], rel[i+1:]
+		}
+		out = append(out, "source://"+dir+":"+name)
+	}
+	for _, s := range t.Sources {
+		add(m.Rel(t.Pkg, s))
+	}
+	if t.SrcDir != "" {
+		add(m.Rel(t.Pkg, t.SrcDir))
+	}
+	for _, g := range t.GenSrc {
+		add(m.GenPath(g))
+	}
+	return out
 }
 
 // Clone returns a deep copy.
